@@ -111,6 +111,10 @@ def _unjkw(kw):
 
 
 def replay_case(case):
+    if case.get("kind") == "namehist":
+        a = engine.Acc()
+        run_name_history(next(x for x in C.entries() if x.label == case["entry"]), a)  # (replays run in a fresh fork)
+        return [(k, v[2]) for k, v in a.viol.items()]
     if case.get("kind") == "unvalidated":
         e = next(x for x in C.entries() if x.label == case["entry"])
         try:
@@ -266,6 +270,38 @@ def run_parsed_unvalidated(e, acc):
                 acc.violation(key, {"kind": "unvalidated", "entry": e.label, "what": what, "pbf": pbf, "x": x.hex()}, f"{e.label}: {detail}")
 
 
+def run_name_history(e, acc):
+    """Name addressing must not depend on earlier calls: the message name is first used with every OTHER class
+    name (whatever that call does), then the usual (class name, message name) form must still equal the int form."""
+    from pyubx2 import UBX_CLASSES
+    first = bytes([e.pins[0]]) if 0 in e.pins else b""
+    mname = names_for(e.clsid, first)
+    cname = UBX_CLASSES.get(e.clsid[0:1])
+    if not mname or not cname or K.route_kwargs(e) is None:
+        return
+    name_id = (cname, mname)
+    kw = K.trivial_kwarg(e, dict(K.route_kwargs(e), **{n: 1 for n in C._size_fields(e.pdict)}))
+    try:
+        want = UBXMessage(e.clsid[0], e.clsid[1], e.mode, **kw).serialize()
+    except Exception:  # noqa: BLE001
+        return
+    for other in UBX_CLASSES.values():
+        if other == name_id[0]:
+            continue
+        try:
+            UBXMessage(other, name_id[1], e.mode, **kw)
+        except Exception:  # noqa: BLE001
+            pass
+        acc.evaluations += 1
+        try:
+            got = UBXMessage(name_id[0], name_id[1], e.mode, **kw).serialize()
+        except Exception as ex:  # noqa: BLE001
+            got = f"{type(ex).__name__}"
+        if got != want:
+            acc.violation(f"addressing_forms_disagree|after_name_used_with_another_class", {"kind": "namehist", "entry": e.label}, f"{e.label} after ({other}, {name_id[1]}): names give {got if isinstance(got, str) else got.hex()[:24]}, ints give {want.hex()[:24]}")
+            return
+
+
 def run_payload_route(cid, ents, quick, acc):
     nom = FS.nominal_len(cid, ents)
     modes = sorted({e.mode for e in ents if e.clsid == cid}) or [GET]
@@ -372,6 +408,11 @@ def eval_block(block, acc):
                 run_parsed_unvalidated(e, acc)
         if len(acc.samples) < 1 and acc.states:
             acc.sample({"entry": sorted(acc.states)[0], "routes": "keywords x {bytes, ints, names}"})
+    elif kind == "namehist":
+        # in a fresh process: nothing has resolved a name yet
+        for e in ents[block[1]::block[2]]:
+            if e.routed and not C.invalid_types(e.pdict):
+                run_name_history(e, acc)
     elif kind == "payload":
         run_payload_route(bytes.fromhex(block[1]), ents, quick, acc)
     elif kind == "nokw":
@@ -389,6 +430,7 @@ def run_tier(tier, t0):
     blocks = [("entries", idx[i::64], q) for i in range(64)]
     blocks += [("payload", cid.hex(), q) for cid in FS.known_clsids()]
     blocks += [("nokw", q), ("config", q), ("extreme", q)]
+    blocks += [("namehist", i, 8, q) for i in range(8)]
     acc = engine.sweep(blocks, eval_block)
     nr = sum(1 for e in ents if e.routed and not C.invalid_types(e.pdict))
     engine.finish(
